@@ -13,4 +13,5 @@ for m in re.finditer(r'\[\[lean_exe\]\]\s*name = "(\w+)"\s*root = "([\w.]+)"', t
         print(m.group(1))
 PY
 )
-lake build QibModel QibProofs $EXES
+lake build QibModel QibProofs
+for e in $EXES; do lake build $e || echo "setup: driver $e does not build (its check will report it)"; done
